@@ -117,6 +117,23 @@ impl ViVisual {
 									}
 								)
 							}
+							// The case operators in their long spelling: 'gu' is 'u', 'gU' is 'U', 'g~' is '~'
+							'u' | 'U' | '~' => {
+								let verb = match ch {
+									'u' => Verb::ToLower,
+									'U' => Verb::ToUpper,
+									_ => Verb::ToggleCaseRange,
+								};
+								return Some(
+									ViCmd {
+										register,
+										verb: Some(VerbCmd(1, verb)),
+										motion: None,
+										raw_seq: self.take_cmd(),
+										flags: CmdFlags::empty()
+									}
+								)
+							}
 							_ => break 'verb_parse None
 						}
 					} else {
